@@ -18,7 +18,10 @@ PID = "C15"
 # every level is an async generator, "badarity" = every item of the map fails (continue mode) because its first leaf returns too few values
 SHAPES_QUICK = [(1, 2, None), (2, 2, None), (2, 2, 1), (2, 2, 2), (3, 2, None), (3, 2, 3),
                 (1, 2, None, "sync"), (2, 2, 1, "sync"), (1, 3, 1, "pool"), (2, 2, 1, "pool"), (1, 2, 1, "pool+sync"),
-                (1, 2, None, "gen"), (2, 2, 1, "gen"), (1, 3, 1, "badarity")]
+                (1, 2, None, "gen"), (2, 2, 1, "gen"), (1, 3, 1, "badarity"),
+                # "allsync": every function is synchronous (nested graphs without any async node); "wrap": the top-level graph
+                # is exactly one node, a nested graph holding everything
+                (1, 2, None, "allsync"), (2, 2, None, "allsync"), (1, 2, None, "wrap"), (1, 2, 1, "wrap")]
 SHAPES_THOROUGH = SHAPES_QUICK + [(2, 3, 1), (2, 3, 2), (3, 2, 2), (3, 3, 3), (3, 2, 1), (3, 3, 2),
                                   (2, 2, None, "sync"), (3, 2, 3, "sync"), (2, 3, 1, "pool"), (2, 3, 1, "pool+sync")]
 
@@ -56,7 +59,8 @@ def run(tier, seed):
     for i, shape in enumerate(shapes):
         depth, fan, map_at = shape[:3]
         fl = flags_of(shape)
-        prog, prov, lists = gen.conc_template(depth, fan, map_at=map_at, sync_last="sync" in fl, pool="pool" in fl, gen_last="gen" in fl, bad_arity="badarity" in fl)
+        prog, prov, lists = gen.conc_template(depth, fan, map_at=map_at, sync_last="sync" in fl, pool="pool" in fl, gen_last="gen" in fl, bad_arity="badarity" in fl,
+                                               async_leaves="allsync" not in fl, wrap="wrap" in fl)
         jobs.append(gen.job(i + 1, prog, prov, mode="async", lists=lists))
     res, stats = predict.model_predict(jobs)
     ctx.add_tlc(stats)
